@@ -1,4 +1,5 @@
 import BoolFn.Proofs.Csv
+import BoolFn.Proofs.CsvText
 import BoolFn.Proofs.Codec
 /-! # C17 — CSV export round-trips and lists the table in domain order
 
@@ -7,10 +8,13 @@ default format and for every choice of Boolean cell formatting with the comma de
 text has one header line naming the inputs in order followed by an output column, then one line per
 domain point in domain order carrying the point's values and the function's output.
 
-Proved at the level of *records* (the cell grid the exporter writes and the records the importer
-reads): `roundtrip_records`. The text layer between them (join with `,` / `\n`, and the `csv` crate's
-splitting, which is outside the model) is covered by the correspondence check, which compares the
-exported text byte for byte and re-imports it with the real importer. -/
+Two layers. *Records* (the cell grid the exporter writes and the records the importer reads):
+`roundtrip_records`. *Text*: in the simple dialect (input names without `,` and line breaks; the
+`csv` crate then neither quotes on writing nor unquotes on reading) the reader's records of the
+exported text are the exported grid and the importer's line count is the number of exported lines
+(`Proofs/CsvText.lean`), so `from_csv_string(to_csv_formatted(t)) = Ok(t)`: `roundtrip_text`. That
+the `csv` crate behaves as modelled in that dialect is what the correspondence check compares (the
+exported text byte for byte, and the real importer on it). -/
 namespace BoolFn.C17
 open BoolFn
 set_option linter.unusedSectionVars false
@@ -96,6 +100,59 @@ theorem roundtrip_records (t : Table String) (h : t.WF) (hsmall : t.inputs.lengt
   simp only [hrows, hfill]
   simp [List.zipIdx_map_fst]
 
+/-- every exported row ends in a non-blank word and has separator-free cells -/
+theorem rows_ok (t : Table String) (hnames : ∀ n ∈ t.inputs, CellOK n) (fi fo : Fmt) :
+    ∀ r ∈ cells t fi fo, RowOK r := by
+  intro r hr
+  simp only [cells, List.mem_cons, List.mem_map] at hr
+  rcases hr with rfl | ⟨x, _, rfl⟩
+  · exact ⟨t.inputs, resultHeader, rfl, hnames, resultHeader_ok.1, resultHeader_ok.2⟩
+  · refine ⟨_, _, rfl, ?_, (formatBool_ok fo x.1).1, (formatBool_ok fo x.1).2⟩
+    intro s hs
+    obtain ⟨b, _, rfl⟩ := List.mem_map.mp hs
+    exact (formatBool_ok fi b).1
+
+/-- **round trip on the text** (simple dialect): importing the exported text gives the table back, for
+    every formatting pair -/
+theorem roundtrip_text (t : Table String) (h : t.WF) (hsmall : t.inputs.length < 64)
+    (hnames : ∀ n ∈ t.inputs, CellOK n) (fi fo : Fmt) :
+    fromCsvString (toCsvFormatted t fi fo) = .ok t := by
+  have hpos : 0 < t.outputs.length := by rw [h.2]; exact Nat.pos_of_ne_zero (by simp)
+  have hout : t.outputs.isEmpty = false := by
+    cases ho : t.outputs with
+    | nil => rw [ho] at hpos; simp at hpos
+    | cons _ _ => rfl
+  -- the data rows, split as  mid ++ [last]
+  obtain ⟨rows, hrows⟩ : ∃ rows, rows = t.outputs.zipIdx.map fun x => recordRow t fi fo x.2 x.1 := ⟨_, rfl⟩
+  have hrl : rows.length = 2 ^ t.inputs.length := by rw [hrows]; simp [h.2]
+  have hrne : rows ≠ [] := by
+    intro e; rw [e] at hrl; simp at hrl
+    exact absurd hrl.symm (by have := Nat.pos_of_ne_zero (n := 2 ^ t.inputs.length) (by simp); omega)
+  have hsplit : rows = rows.dropLast ++ [rows.getLast hrne] := (List.dropLast_concat_getLast hrne).symm
+  have hcells : cells t fi fo = headerRow t :: (rows.dropLast ++ [rows.getLast hrne]) := by
+    rw [← hsplit, hrows]; rfl
+  have hok := rows_ok t hnames fi fo
+  have htext : (toCsvFormatted t fi fo).toList = textOf (cells t fi fo) := by
+    simp only [toCsvFormatted, hout, Bool.and_false, Bool.false_eq_true, if_false]
+    exact intercalate_toList _
+  have hcount : fileRowCount (toCsvFormatted t fi fo).toList = 2 ^ t.inputs.length + 1 := by
+    rw [htext, hcells, fileRowCount_textOf _ _ _ (by rw [← hcells]; exact hok)]
+    have : rows.dropLast.length = rows.length - 1 := List.length_dropLast
+    have hp : 0 < rows.length := List.length_pos_iff.mpr hrne
+    omega
+  have hrecs : csvRecords (toCsvFormatted t fi fo).toList = cells t fi fo := by
+    rw [htext]; exact csvRecords_textOf _ (by simp [cells]) hok
+  have hnonempty : (toCsvFormatted t fi fo).isEmpty = false := by
+    cases he : (toCsvFormatted t fi fo).isEmpty with
+    | false => rfl
+    | true =>
+      have := String.isEmpty_iff.mp he
+      have hl : (toCsvFormatted t fi fo).toList = [] := by rw [this]; rfl
+      rw [← hrecs, hl] at hcells
+      simp [csvRecords, splitOnChar] at hcells
+  simp only [fromCsvString, hnonempty, Bool.false_eq_true, if_false, hcount, hrecs]
+  exact roundtrip_records t h hsmall fi fo
+
 /-- layout: line 0 is the header (inputs in order, then the result column), line k+1 encodes entry k
     of the relation (domain point k and its output) -/
 theorem layout (t : Table String) (fi fo : Fmt) :
@@ -112,5 +169,8 @@ example : (match fromCsvCommon 5 (cells ⟨["a", "b"], [false, true, true, false
     | .ok t => t == ⟨["a", "b"], [false, true, true, false]⟩ | .error _ => false) = true := by decide
 example : (match fromCsvCommon 2 (cells ⟨[], [true]⟩ .number .number) with
     | .ok t => t == ⟨[], [true]⟩ | .error _ => false) = true := by decide
+/-- the name hypothesis of the text theorem is met by ordinary names, and the exported text is what one expects -/
+example : (∀ n ∈ ["a", "x_1"], CellOK n) ∧
+    (toCsvFormatted ⟨["a"], [false, true]⟩ .number .word).toList = "a,result\n0,false\n1,true".toList := by decide
 
 end BoolFn.C17
